@@ -1,7 +1,7 @@
 #!/venv/bin/python
 """Re-run ALL quick checks against every kept behaviour-preserving refactoring that still applies to /repo HEAD
 (seeded/*refactor*/patch.diff) - to be repeated whenever generators or oracles were strengthened.
-usage: recheck_refactors.py [name-substring]   (parallelism: VERIF_REF_PAR, default 3)"""
+usage: recheck_refactors.py [name-substring]   (parallelism: VERIF_REF_PAR, default 3; VERIF_REF_RUNS=<n> runs per check instead of the quick default)"""
 import concurrent.futures as cf
 import glob
 import json
@@ -34,7 +34,8 @@ def one(d):
         checks = {}
         for p in ALL:
             env = dict(os.environ, VERIF_REPO=w, VERIF_OUT=f"{scratch}/out")
-            rcc, logc = sh(f"{VERIF}/check {p} --tier quick", cwd=VERIF, env=env)
+            runs = os.environ.get("VERIF_REF_RUNS")
+            rcc, logc = sh(f"{VERIF}/check {p} --tier quick" + (f" --runs {int(runs)}" if runs else ""), cwd=VERIF, env=env)
             checks[p] = {"exit": rcc, "summary": [ln[:400] for ln in logc.splitlines()
                                                   if ln.startswith(("minimised", "  detail", "VIOLATION", "HARNESS"))][:5]}
         alarms = [p for p, r in checks.items() if r["exit"] != 0]
